@@ -235,6 +235,15 @@ func (g *Gen) snippet() string {
 		}},
 		{"once", func() string {
 			m := g.onceMarker()
+			if r.Chance(40) {
+				// a component carrying its own v-once element, included once, twice or from a loop
+				comp := "components/OnceBox.vuego"
+				if !g.has(comp) {
+					g.put(comp, `<div class="ob"><style v-once>.ob{}</style><b v-once>once-box</b><i>{{ label }}</i></div>`)
+				}
+				inc := `<template include="` + comp + `" :label="name"></template>`
+				return Pick(r, []string{inc, inc + "\n" + inc, `<div v-for="item in items"><template include="` + comp + `" :label="item.label"></template></div>`})
+			}
 			return Pick(r, []string{`<style v-once>.` + m + `{}</style>`, `<div v-for="item in items"><b v-once>` + m + `</b><i>{{ item.id }}</i></div>`, `<p v-once>` + m + ` {{ name }}</p>`})
 		}},
 		{"tplvar", func() string {
@@ -268,20 +277,38 @@ func (g *Gen) snippet() string {
 
 // body builds a page body of n snippets.
 func (g *Gen) body(n int, mark string) string {
-	var b strings.Builder
-	fmt.Fprintf(&b, "<main data-mark=\"%s\">\n", mark)
+	var parts []string
 	for i := 0; i < n; i++ {
-		b.WriteString(g.snippet())
-		b.WriteString("\n")
+		parts = append(parts, g.snippet())
 	}
-	b.WriteString("</main>\n")
-	return b.String()
+	return g.wrap(parts, mark)
+}
+
+// wrap lays the snippets out as a template: one root element or several top-level elements,
+// with or without a trailing newline (a trailing whitespace text node is a top-level node too).
+func (g *Gen) wrap(parts []string, mark string) string {
+	switch g.R.Intn(5) {
+	case 0, 1:
+		return "<main data-mark=\"" + mark + "\">\n" + strings.Join(parts, "\n") + "\n</main>\n"
+	case 2:
+		return "<main data-mark=\"" + mark + "\">\n" + strings.Join(parts, "\n") + "\n</main>"
+	case 3:
+		return "<i data-mark=\"" + mark + "\"></i>\n" + strings.Join(parts, "\n") + "\n"
+	}
+	return "<i data-mark=\"" + mark + "\"></i>\n" + strings.Join(parts, "\n")
 }
 
 // failing snippets: each makes the render return an error.
 func (g *Gen) failing() (string, string) {
 	r := g.R
-	switch r.Intn(7) {
+	switch r.Intn(10) {
+	case 7: // the failure comes after text and an interpolation of the same text node
+		return `<p>Card of {{ name }}: {{ n | nosuchfilter }} tail</p>`, "unknown-filter-late-in-text"
+	case 8: // ... of the same attribute value
+		return `<a title="t {{ name }} / {{ n | nosuchfilter }}" href="#">x</a>`, "unknown-filter-late-in-attr"
+	case 9:
+		g.Eng.Funcs = true
+		return `<p>{{ title }} and {{ user.name }} then {{ n | failfn }}</p>`, "failing-func-late-in-text"
 	case 0:
 		return `<p>{{ name | nosuchfilter }}</p>`, "unknown-filter"
 	case 1:
@@ -324,7 +351,7 @@ func (g *Gen) FailingBody(n int, mark string) (string, string) {
 		parts = append(parts, `<template include="`+name+`"></template>`)
 		kind += "/include"
 	}
-	return "<main data-mark=\"" + mark + "\">\n" + strings.Join(parts, "\n") + "\n</main>\n", kind
+	return g.wrap(parts, mark), kind
 }
 
 // Layouts adds layout files. base: whether layouts/base.vuego exists (default layout).
